@@ -80,6 +80,8 @@ def parse_harness_files():
                         "outside": ann.get("outside", []),
                         "known": ann.get("known", [None])[0],
                         "known_check": ann.get("known-check", []),
+                        "config": " ".join(ann.get("config", [])).strip(),
+                        "mem_gb": int(ann.get("mem", ["3"])[0]),
                         "line": i + 1,
                     })
                 ann = {}
@@ -112,8 +114,10 @@ def make_scratch(tag):
     return d
 
 
-def build_scratch(scratch):
-    """Regenerate the crate to verify from /repo's *current working tree*."""
+def build_scratch(scratch, config=""):
+    """Regenerate the crate to verify from /repo's *current working tree*.
+    `config` = "NAME=VALUE ..." rewrites `pub const NAME: T = ...;` in src/constants.rs (scaled
+    constants for harnesses annotated `@config`; stated in their bounds)."""
     crate = os.path.join(scratch, "rdest")
     os.makedirs(crate)
     shutil.copytree(os.path.join(REPO, "src"), os.path.join(crate, "src"))
@@ -124,6 +128,15 @@ def build_scratch(scratch):
     # environment models and harnesses are copied too, so a run is isolated from edits
     shutil.copytree(ENV_DIR, os.path.join(scratch, "env"), ignore=shutil.ignore_patterns("target"))
     shutil.copytree(HARNESS_DIR, os.path.join(scratch, "vh"))
+
+    for item in config.split():
+        name, val = item.split("=", 1)
+        cp = os.path.join(crate, "src", "constants.rs")
+        t = open(cp).read()
+        t2, n = re.subn(r"(pub const %s: \w+ = )[^;]+;" % re.escape(name), r"\g<1>%s;" % val, t)
+        if n != 1:
+            raise RuntimeError("config: constant %s not found exactly once in src/constants.rs" % name)
+        open(cp, "w").write(t2)
 
     toml = open(os.path.join(REPO, "Cargo.toml")).read()
     env = os.path.join(scratch, "env")
@@ -275,6 +288,13 @@ def replay_counterexample(crate, scratch, h, failed, logdir):
             return 1
         return 2
     tests = sorted(tests, key=rank)
+    seen = set()
+    uniq = []
+    for body, name in tests:  # Kani prints the same test once per failing check it explains
+        if name not in seen:
+            seen.add(name)
+            uniq.append((body, name))
+    tests = uniq
     if not tests:
         return None, "", "Kani produced no concrete playback test (see %s)" % logfile
     vh = os.path.join(scratch, "vh", h["file"])
@@ -302,7 +322,7 @@ def write_replay_file(prop, h, failed, body, detail):
     path = os.path.join(d, "%s-%s.rs" % (prop, h["name"]))
     with open(path, "w") as fh:
         fh.write("// Replay of a solver counterexample (Kani concrete playback).\n")
-        fh.write("// property: %s\n// harness-file: %s\n// harness: %s\n" % (prop, h["file"], h["name"]))
+        fh.write("// property: %s\n// harness-file: %s\n// harness: %s\n// config: %s\n" % (prop, h["file"], h["name"], h.get("config", "")))
         for f in failed:
             fh.write("// failed-check: %s @ %s\n" % (f["desc"], f["loc"]))
         fh.write("// native-result: %s\n" % detail)
@@ -314,13 +334,14 @@ def write_replay_file(prop, h, failed, body, detail):
 def do_replay(prop, path):
     text = open(path).read()
     m = re.search(r"// harness-file: (\S+)", text)
+    mc = re.search(r"// config: (.*)", text)
     t = PLAYBACK_RE.search(text)
     if not m or not t:
         log("replay file not understood: %s" % path)
         return 2
     scratch = make_scratch(prop + "-replay")
     try:
-        crate, _, _ = build_scratch(scratch)
+        crate, _, _ = build_scratch(scratch, mc.group(1).strip() if mc else "")
         with open(os.path.join(scratch, "vh", m.group(1)), "a") as fh:
             fh.write("\n" + t.group(1) + "\n")
         logfile = os.path.join(scratch, "replay.log")
@@ -393,19 +414,29 @@ def main():
     notes = []
     known_lines = []
     violations = []
+    groups = {}
+    for h in harnesses:
+        groups.setdefault(h["config"], []).append(h)
+    pending = []  # failing harnesses awaiting native replay: cheapest first, stop at the first confirmed one
     try:
-        crate, rewritten, injected = build_scratch(scratch)
+      for config, group in sorted(groups.items()):
+        gscratch = os.path.join(scratch, "cfg-" + (re.sub(r"\W+", "_", config) or "default"))
+        os.makedirs(gscratch)
+        crate, rewritten, injected = build_scratch(gscratch, config)
         timeout = int(os.environ.get("VERIF_HARNESS_TIMEOUT", TIER_TIMEOUT[tier]))
-        jobs = min(len(harnesses), int(os.environ.get("VERIF_JOBS", "14")))
+        jobs = min(len(group), int(os.environ.get("VERIF_JOBS", "14")))
+        # memory budget: harnesses declare their measured peak (`@mem GB`, default 3); keep the sum
+        # of the parallel ones under ~44 GB of the 62 GB machine
+        jobs = max(1, min(jobs, 44 // max(h["mem_gb"] for h in group)))
         cmd = ["cargo", "kani", "-j", str(jobs), "--output-format", "terse", "--output-into-files",
                "-Z", "unstable-options", "-Z", "stubbing", "--harness-timeout", "%ds" % timeout]
-        for h in harnesses:
+        for h in group:
             cmd += ["--harness", h["name"]]
-        cmd += ["--exact"] if False else []
-        logfile = os.path.join(logdir, "kani.log")
-        log("[%s] %d harness(es), tier=%s, scratch=%s" % (prop, len(harnesses), tier, scratch))
+        logfile = os.path.join(logdir, "kani%s.log" % ("-" + re.sub(r"\W+", "_", config) if config else ""))
+        log("[%s] %d harness(es), tier=%s%s, scratch=%s" % (prop, len(group), tier, (", config " + config) if config else "", gscratch))
         rc, wall = run_cmd(cmd, crate, timeout * 3 + 600, logfile)
         kani_out = open(logfile).read()
+        gstatus = 0
         if "error: could not compile" in kani_out or "error[E" in kani_out:
             errs = re.findall(r"(error(?:\[E\d+\])?: .*?)\n", kani_out)
             log("[%s] INCONCLUSIVE: the harnesses no longer compile against /repo's sources:" % prop)
@@ -413,7 +444,8 @@ def main():
                 log("    " + e)
             log("    full log: %s" % logfile)
             status = 2
-        for h in harnesses if status == 0 else []:
+            gstatus = 2
+        for h in group if gstatus == 0 else []:
             rf = find_result_file(crate, h)
             r = {"harness": h["name"], "file": h["file"], "functions": h["fn"], "bounds": h["bound"], "desc": h["desc"]}
             if rf is None:
@@ -455,22 +487,8 @@ def main():
                     log("[%s] %-44s fails as recorded in known_findings.txt (%s)" % (prop, h["name"], kid))
                 else:
                     log("[%s] %-44s FAILED: %s" % (prop, h["name"], "; ".join("%s @ %s" % (f["desc"], f["loc"]) for f in failed[:4])))
-                    log("[%s]   replaying the counterexample natively ..." % prop)
-                    rep, body, detail = replay_counterexample(crate, scratch, h, failed, logdir)
-                    if rep:
-                        path = write_replay_file(prop, h, failed, body, detail)
-                        r["status"] = "violation"
-                        r["replay"] = path
-                        r["native"] = detail
-                        violations.append((h, path, failed, detail))
-                        status = max(status, 1) if status != 2 else status
-                        if status == 0:
-                            status = 1
-                    else:
-                        r["status"] = "unconfirmed"
-                        r["detail"] = "counterexample did not reproduce natively: %s" % detail
-                        log("[%s]   counterexample NOT reproduced natively (%s) -> inconclusive" % (prop, detail))
-                        status = 2
+                    r["status"] = "failed-pending-replay"
+                    pending.append((pr["time"] or 1e9, h, r, failed, crate, gscratch))
             else:
                 r["status"] = "inconclusive"
                 why = pr["verdict"] or "no verdict"
@@ -480,6 +498,27 @@ def main():
                 log("[%s] %-44s INCONCLUSIVE: %s (log %s)" % (prop, h["name"], why, os.path.join(logdir, h["name"] + ".out")))
                 status = 2
             results.append(r)
+      for _, h, r, failed, crate, gscratch in sorted(pending, key=lambda x: x[0]):
+        if violations:
+            r["status"] = "failed-not-replayed"
+            r["detail"] = "fails under Kani; not replayed because harness %s already gave a natively confirmed violation" % violations[0][0]["name"]
+            log("[%s]   %s: not replayed (violation already confirmed)" % (prop, h["name"]))
+            continue
+        log("[%s]   replaying the counterexample of %s natively ..." % (prop, h["name"]))
+        rep, body, detail = replay_counterexample(crate, gscratch, h, failed, logdir)
+        if rep:
+            path = write_replay_file(prop, h, failed, body, detail)
+            r["status"] = "violation"
+            r["replay"] = path
+            r["native"] = detail
+            violations.append((h, path, failed, detail))
+            if status == 0:
+                status = 1
+        else:
+            r["status"] = "unconfirmed"
+            r["detail"] = "counterexample did not reproduce natively: %s" % detail
+            log("[%s]   counterexample NOT reproduced natively (%s) -> inconclusive" % (prop, detail))
+            status = 2
     except Exception as e:  # noqa
         log("[%s] driver error: %r" % (prop, e))
         status = 2
@@ -494,6 +533,9 @@ def main():
     assumptions = []
     outside = []
     for h in harnesses:
+        if h.get("config"):
+            a = "harness %s runs on a scratch copy whose src/constants.rs has %s (scaled constant; the code is otherwise unchanged)" % (h["name"], h["config"])
+            assumptions.append(a)
         for a in h["assume"]:
             if a not in assumptions:
                 assumptions.append(a)
